@@ -87,7 +87,7 @@ func refCause(fn string, t int8, b []byte) (causes []int, detail string) {
 		}
 		if c := strCause(b[4:]); c != nil {
 			if c[0] == causeNegative {
-				return []int{causeInvalid, causeNegative}, "negative name length" // documented tolerance
+				return c, "negative name length"
 			}
 			return c, ""
 		}
@@ -365,7 +365,7 @@ func genErrStreamCase(t *rapid.T) ErrStreamCase {
 }
 
 func TestC17_Mem(t *testing.T) {
-	rec := evid.New("C17", "c17_mem", "rapid: the C08 malformed-input generator for Binary.Skip (cuts, structural/size perturbations, nesting 1..70, arbitrary type tags) and cut/hostile-size/bad-version variants of valid inputs for every Binary.Read* and ReadMessageBegin; each failing call must return a *ProtocolException whose TypeId is the one Thrift assigns to the cause found by the reference (truncation/unknown type -> INVALID_DATA, negative size -> NEGATIVE_SIZE, version -> BAD_VERSION, nesting -> DEPTH_LIMIT; tolerances: negative name length in a message header, nesting level 64, a too-deep value of which no byte exists); non-trivial = failing input of >= 4 bytes or a cause other than INVALID_DATA")
+	rec := evid.New("C17", "c17_mem", "rapid: the C08 malformed-input generator for Binary.Skip (cuts, structural/size perturbations, nesting 1..70, arbitrary type tags) and cut/hostile-size/bad-version variants of valid inputs for every Binary.Read* and ReadMessageBegin; each failing call must return a *ProtocolException whose TypeId is the one Thrift assigns to the cause found by the reference (truncation/unknown type -> INVALID_DATA, negative size -> NEGATIVE_SIZE, version -> BAD_VERSION, nesting -> DEPTH_LIMIT; a negative name length in a message header is a negative size like any other; tolerances: nesting level 64, a too-deep value of which no byte exists); non-trivial = failing input of >= 4 bytes or a cause other than INVALID_DATA")
 	defer rec.Flush()
 	runRapid(t, rec, "c17_mem", evid.Pick(60000, 500000), genErrMemCase, checkErrMem)
 }
